@@ -18,7 +18,7 @@ GROUPS = [
      "genuine defect of the pinned tree, group 'reported line is not the changed line' (DESIGN 14.2): the violation carries the line of the token left of the gap while the fix edits the line of the token right of it"),
     (("role_changed", "relayout_rejected", "token_count_differs", "code_tokens_differ"),
      "genuine defect of the pinned tree, group 'classification depends on layout' (DESIGN 14.2)"),
-    (("exception:", "hang@", "escaped:", "traceback:"),
+    (("exception:", "hang@", "hang_in_classification", "escaped:", "traceback:"),
      "genuine defect of the pinned tree, group 'crashes and hangs' (DESIGN 14.2): an accepted file (or a documented configuration) makes a rule or the classifier raise / not terminate; each call site needs its own guard and a decision what the rule should report there"),
     (("tagged_rule_reported_on_tagged_line",),
      "genuine defect of the pinned tree (DESIGN 14.2, code tags): the rule reports on the line after vsg_disable_next_line although every token of that line carries the tag: the tokens of its violation "
